@@ -113,8 +113,12 @@ fn small_xorb(syms: &[u8]) -> Xorb {
     for (i, s) in syms.iter().enumerate() {
         code += (*s as u64 + 1) * 10u64.pow(i as u32);
     }
+    // a single-chunk xorb is named like a real one: the merkle root of a one-element list is the
+    // chunk hash itself, so an xorb hash can equal a chunk hash that occurs in queries (a scan that
+    // runs past a xorb's end then reads the next xorb's header as if it were a chunk entry)
+    let hash = if syms.len() == 1 { sym_hash(syms[0]) } else { hw([mix(code ^ 0xCA5), 0xCA5, code, 0x58]) };
     Xorb {
-        hash: hw([mix(code ^ 0xCA5), 0xCA5, code, 0x58]),
+        hash,
         chunks: syms.iter().enumerate().map(|(i, s)| (sym_hash(*s), 4096 + 512 * (*s as u32) + (1 << i))).collect(),
     }
 }
@@ -1749,8 +1753,16 @@ fn check_export_bytes(orig: &[u8], exp: &[u8], key: &RH, flags: (bool, bool, boo
     }
     // raw hashes must not survive anywhere in a keyed export
     if *key != ZERO {
+        // xorb and file hashes are *kept* by the statement: a raw chunk hash that is also the hash of a
+        // xorb of this shard (a single-chunk xorb is named by its chunk's hash) or of a file legitimately
+        // stays in the export in that role and is not a leak
+        let kept: BTreeSet<RH> = po.cas.iter().map(|c| c.hash).chain(po.files.iter().map(|f| f.hash)).collect();
         for a in &po.cas {
             for c in &a.chunks {
+                if kept.contains(&c.0) {
+                    out.count("info:raw_chunk_hash_equals_a_kept_xorb_or_file_hash", 1);
+                    continue;
+                }
                 out.count("vac:raw_hash_searches", 1);
                 let needle = if m.leak_search_keyed { keyed(&c.0, key, m) } else { c.0 };
                 if let Some(pos) = contains(exp, &needle) {
